@@ -17,6 +17,9 @@
 #include "DensitySubGridCreator.hpp"
 #include "DistributedPhotonSource.hpp"
 #undef private
+// statements copied from the current sources by tools/props/c13.py (emission blocks of the two
+// task contexts, per-thread seeding loops of the two task based drivers)
+#include "c13_extracted.hpp"
 
 // point sources with given weights; source s sits in the middle of subgrid s of an S x 1 x 1 grid
 class ListDistribution : public PhotonSourceDistribution {
@@ -198,6 +201,55 @@ int main() {
       unlink(name);
       ref.set(k, kc, (int)u64(w[14]), (int)u64(w[16]));
       std::cout << "state " << show_state(*g) << "\n";
+    } else if (w.size() == 1 && w[0] == "abi") {
+      // checked premise of the model: the fast integer types are the 64 bit ones
+      std::cout << "abi " << sizeof(int_fast32_t) << " " << sizeof(uint_fast32_t) << " "
+                << sizeof(size_t) << "\n";
+    } else if (w.size() == 1 && w[0] == "nexti") {
+      const double ur = ref.next();
+      const int_fast32_t r = g->get_random_integer();
+      if (shadow) shadow->get_random_integer();
+      std::cout << "nexti " << r << "\n";
+      if (r < 0 || r >= 2147483648ll) bad << " random-integer-out-of-range";
+      if (r != (int_fast32_t)std::floor(std::ldexp(ur, 31))) bad << " random-integer-is-not-the-leading-31-bits";
+    } else if (w.size() == 2 && w[0] == "emit") {
+      // the emission block of SourceDiscretePhotonTaskContext ("s") / PhotonReemitTaskContext
+      // ("r"), as it stands in the source, run on the current generator
+      GenRef gr{g};
+      FakePhoton ph;
+      if (w[1] == "s") extracted_emit_source(gr, 0, ph, 1.);
+      else extracted_emit_reemit(gr, 0, ph);
+      if (shadow) { shadow->get_uniform_random_double(); shadow->get_uniform_random_double(); shadow->get_uniform_random_double(); }
+      const double u1 = ref.next(), u2 = ref.next(), u3 = ref.next();
+      (void)u2;
+      std::cout << "emit " << showF(ph.dir[0]) << " " << showF(ph.dir[1]) << " " << showF(ph.dir[2])
+                << " " << showF(ph.tau) << "\n";
+      const double n2 = ph.dir[0] * ph.dir[0] + ph.dir[1] * ph.dir[1] + ph.dir[2] * ph.dir[2];
+      if (!(std::fabs(n2 - 1.) <= 1.e-14)) bad << " direction-is-not-a-unit-vector";
+      if (!(ph.dir[2] >= -1. && ph.dir[2] < 1.)) bad << " direction-z-outside-[-1,1)";
+      if (!(ph.tau > 0.)) bad << " optical-depth-not-positive";
+      if (bits_of(ph.dir[2]) != bits_of(2. * u1 - 1.) || bits_of(ph.tau) != bits_of(-std::log(u3)))
+        bad << " emission-does-not-use-three-consecutive-draws";
+    } else if (w.size() == 3 && w[0] == "threads") {
+      // the per-thread seeding loops of both task based drivers, as they stand in the source
+      const long long s0 = std::strtoll(w[1].c_str(), nullptr, 10);
+      const int_fast32_t n = u64(w[2]);
+      std::vector< RandomGenerator > a(n), b(n);
+      extracted_seed_threads_ion(a, s0, n);
+      extracted_seed_threads_rhd(b, s0, n);
+      std::cout << "threads";
+      bool same_loops = true, share = false;
+      std::vector< std::vector< uint64_t > > first(n);
+      for (int_fast32_t i = 0; i < n; ++i) {
+        if (!same_state(a[i], b[i])) same_loops = false;
+        for (int k = 0; k < 24; ++k) first[i].push_back(bits_of(a[i].get_uniform_random_double()));
+        std::cout << " " << first[i][0];
+        for (int_fast32_t j = 0; j < i; ++j)
+          if (first[i] == first[j]) share = true;
+      }
+      std::cout << "\n";
+      if (!same_loops) bad << " drivers-seed-their-threads-differently";
+      if (share) bad << " two-threads-share-a-stream";
     } else if (w.size() >= 3 && w[0] == "split") {
       // split <N> <weight bits>:<copies> ...  — construct the photon source several times in
       // this process from the same inputs; every construction must give the same split
